@@ -2,80 +2,275 @@ package spec
 
 import (
 	"go/ast"
+	"go/token"
+	"go/types"
 	"sort"
 	"strings"
 
 	"lndlint/internal/an"
 )
 
-// rbfCloseOptions: in the RBF cooperative close flow the closer signs its
+// c17RbfOptList is what c17RbfOptionList learned about one option slice variable.
+type c17RbfOptList struct {
+	obj      types.Object
+	explicit []*ast.CallExpr // option constructor calls placed in the list
+	builders []an.Site       // the statements that place them
+	writes   []an.Site       // every write of the list (builders and musig appends)
+	musig    []string        // the sources of the appended musig options
+}
+
+// canonOpts renders the explicit options, sorted.
+func (l *c17RbfOptList) canonOpts(f *an.Func) []string {
+	var out []string
+	for _, c := range l.explicit {
+		out = append(out, f.Canon(c))
+	}
+	sort.Strings(out)
+	return out
+}
+
+// c17RbfOptionList analyses the close-option slice `id` of f.  The list may only
+// be
+//
+//	declared                         var opts []ChanCloseOpt
+//	built from constructor calls     opts := []ChanCloseOpt{lnwallet.WithX(..), ..} / opts = append(opts, lnwallet.WithX(..), ..)
+//	extended by musig options        opts = append(opts, m...)   with m result #k of one of musigSources
+//
+// and be handed to the consumer calls.  Any other write (element assignment,
+// re-slicing, append of something that is not a constructor call, append of
+// a spread list of unknown origin, address-of, alias) and any other use is
+// reported: the comparison of the two halves reads the constructor calls and
+// would not see it.
+func c17RbfOptionList(o *an.Obl, f *an.Func, id *ast.Ident, consumers []an.Site, musigSources map[string]int) *c17RbfOptList {
+	info := f.Info()
+	l := &c17RbfOptList{obj: c17ObjOfIdent(f, id)}
+	if _, ok := l.obj.(*types.Var); !ok {
+		o.FailAt(f.ID+"#option-list", f.Where(id.Pos()), "the option list %s is not a variable", id.Name)
+		return l
+	}
+	allowed := map[*ast.Ident]bool{}
+	isList := func(e ast.Expr) bool {
+		x, ok := ast.Unparen(e).(*ast.Ident)
+		return ok && c17ObjOfIdent(f, x) == l.obj
+	}
+	allow := func(e ast.Expr) {
+		if x, ok := ast.Unparen(e).(*ast.Ident); ok {
+			allowed[x] = true
+		}
+	}
+	isCtor := func(e ast.Expr) (*ast.CallExpr, bool) {
+		c, ok := ast.Unparen(e).(*ast.CallExpr)
+		if !ok {
+			return nil, false
+		}
+		return c, strings.HasPrefix(an.CalleeID(info, c), lw+"With")
+	}
+	bad := func(w c17VarWrite, why string) {
+		o.FailAt(f.ID+"#option-list-write", f.Where(w.Node.Pos()), "%s: the option list %s is written by %s (%s); the two halves of the flow are compared by the constructor calls placed in the list", f.ID, id.Name, an.Text(w.Node), why)
+	}
+	for _, w := range c17WritesOf(f, l.obj) {
+		s, inGraph := c17SiteOfNode(f, w.Node)
+		if !inGraph {
+			bad(w, "inside a function literal")
+			continue
+		}
+		if w.Tok == token.VAR && w.Rhs == nil && !w.Tuple {
+			continue // var opts []T
+		}
+		if !w.Whole || w.Tuple || w.Rhs == nil || (w.Tok != token.ASSIGN && w.Tok != token.DEFINE && w.Tok != token.VAR) {
+			bad(w, "not a plain assignment of the whole list")
+			continue
+		}
+		l.writes = append(l.writes, s)
+		allow(w.Lhs)
+		var elems []ast.Expr
+		switch x := ast.Unparen(w.Rhs).(type) {
+		case *ast.CompositeLit:
+			elems = x.Elts
+		case *ast.CallExpr:
+			if an.CalleeID(info, x) != "builtin.append" || len(x.Args) < 1 || !isList(x.Args[0]) {
+				bad(w, "not an append to the list itself")
+				continue
+			}
+			allow(x.Args[0])
+			if x.Ellipsis.IsValid() {
+				src, ok := ast.Unparen(x.Args[len(x.Args)-1]).(*ast.Ident)
+				var call *ast.CallExpr
+				idx := -1
+				if ok && len(x.Args) == 2 {
+					call, idx = f.UniqueCallDef(src)
+				}
+				name := ""
+				if call != nil {
+					name = an.CalleeID(info, call)
+					name = name[strings.LastIndex(name, ".")+1:]
+				}
+				if want, known := musigSources[name]; call == nil || !known || want != idx {
+					bad(w, "a spread list that is not the musig options returned by "+strings.Join(c17KeysOfInt(musigSources), " / "))
+					continue
+				}
+				l.musig = append(l.musig, name)
+				continue
+			}
+			elems = x.Args[1:]
+		default:
+			bad(w, "neither a literal list of constructor calls nor an append")
+			continue
+		}
+		ok := true
+		for _, e := range elems {
+			c, isC := isCtor(e)
+			if !isC {
+				bad(w, "the element "+an.Text(e)+" is not a call of a lnwallet.With… option constructor")
+				ok = false
+				continue
+			}
+			l.explicit = append(l.explicit, c)
+		}
+		if ok {
+			l.builders = append(l.builders, s)
+		}
+	}
+	// uses: only the consumers' argument
+	for _, c := range consumers {
+		for _, a := range c.Node.(*ast.CallExpr).Args {
+			if isList(a) {
+				allow(a)
+			}
+		}
+	}
+	for _, u := range c17UsesOf(f, l.obj) {
+		if !allowed[u] {
+			o.FailAt(f.ID+"#option-list-use", f.Where(u.Pos()), "%s: the option list %s is used outside its construction and the signing / completing calls; it can be changed or aliased there", f.ID, id.Name)
+		}
+	}
+	// flow: the constructor calls are placed on every path to a consumer,
+	// and nothing is written once a consumer has run
+	g := f.Graph()
+	for _, c := range consumers {
+		for _, b := range l.builders {
+			o.Site("%s precedes %s", b.String(), c.String())
+			if !f.Before([]an.Site{b}, c) {
+				o.FailAt(f.ID+"#option-list-conditional", b.Where(), "%s can be reached without the options placed at %s", c.String(), b.String())
+			}
+		}
+		if name := an.CalleeID(info, c.Node.(*ast.CallExpr)); strings.HasSuffix(name, "prepareClosingSignatures") {
+			continue // hands the musig options back, which are appended afterwards
+		}
+		after := c17StrictlyAfter(g, c.V)
+		for _, w := range l.writes {
+			if after[w.V] {
+				o.FailAt(f.ID+"#option-list-written-after-use", w.Where(), "the option list %s is written at %s after %s used it", id.Name, w.String(), c.String())
+			}
+		}
+	}
+	// one option of each kind
+	seen := map[string]bool{}
+	for _, c := range l.explicit {
+		k := an.CalleeID(info, c)
+		if seen[k] {
+			o.FailAt(f.ID+"#duplicate-option", f.Where(c.Pos()), "%s: the option %s is placed more than once in %s (the later one wins)", f.ID, k, id.Name)
+		}
+		seen[k] = true
+	}
+	return l
+}
+
+func c17KeysOfInt(m map[string]int) []string {
+	var out []string
+	for k := range m {
+		out = append(out, k)
+	}
+	sort.Strings(out)
+	return out
+}
+
+// spreadOrLastIdent returns the identifier handed as the option list of a
+// call: its final argument (spread or not).
+func c17LastArgIdent(s an.Site) *ast.Ident {
+	c := s.Node.(*ast.CallExpr)
+	if len(c.Args) == 0 {
+		return nil
+	}
+	id, _ := ast.Unparen(c.Args[len(c.Args)-1]).(*ast.Ident)
+	return id
+}
+
+// c17RbfOptionKinds checks that the explicit options of l are exactly the
+// tabled kinds, each with the tabled argument.
+func c17RbfOptionKinds(o *an.Obl, f *an.Func, l *c17RbfOptList, where string, want map[string]an.Term, desc map[string]string) {
+	got := map[string]bool{}
+	for _, c := range l.explicit {
+		k := strings.TrimPrefix(an.CalleeID(f.Info(), c), lw)
+		t, ok := want[k]
+		if !ok {
+			o.FailAt(f.ID+"#option:"+k, f.Where(c.Pos()), "%s: the option %s is not one the rule knows for this flow", f.ID, f.Canon(c))
+			continue
+		}
+		got[k] = true
+		if len(c.Args) != 1 || !t(f, ast.Unparen(c.Args[0])) {
+			o.FailAt(f.ID+"#option:"+desc[k], f.Where(c.Pos()), "%s: the option %s does not carry %s", f.ID, f.Canon(c), desc[k])
+		}
+	}
+	for k := range want {
+		if !got[k] {
+			o.FailAt(f.ID+"#option:"+desc[k], where, "%s: the options %v lack %s", f.ID, l.canonOpts(f), desc[k])
+		}
+	}
+}
+
+// c17RbfCloseOptions: in the RBF cooperative close flow the closer signs its
 // proposal in one state (LocalCloseStart) and completes it in another
 // (LocalOfferSent); the closee signs and completes in one state
 // (RemoteCloseStart).  Both halves of a flow must build the transaction with
 // the same options, and the fee payer is the closer in both flows.
-func rbfCloseOptions(r *an.Run) {
+func c17RbfCloseOptions(r *an.Run) {
 	p := r.Prog
 	cc := "lnwallet/chancloser."
 	r.Obl("rbf-proposal-and-completion-same-options", "MIRROR",
-		"the non-musig close options (sequence, lock time, fee payer) handed to CreateCloseProposal in LocalCloseStart equal those handed to CompleteCooperativeClose in LocalOfferSent and name the local party as payer; RemoteCloseStart hands one option list, naming the remote party as payer and the lock time of the peer's message, to both createLocalCloseeSignature (whose CreateCloseProposal receives exactly that list) and CompleteCooperativeClose; the scripts and the fee of the two halves agree as well",
+		"the non-musig close options (sequence, lock time, fee payer) handed to CreateCloseProposal in LocalCloseStart equal those handed to CompleteCooperativeClose in LocalOfferSent and name the local party as payer; RemoteCloseStart hands one option list, naming the remote party as payer and the lock time of the peer's message, to both createLocalCloseeSignature (whose CreateCloseProposal receives exactly that list) and CompleteCooperativeClose; the scripts and the fee of the two halves agree as well; each option list is built only from option constructor calls (one per kind, on every path to its use) plus the musig options returned by ProposalClosingOpts / prepareClosingSignatures (nil or those of CombineClosingOpts), is used for nothing else, and is not written once it was handed to the signing or the completing call",
 		"completing with another payer, sequence or lock time than was signed rebuilds a different transaction: the peer's signature does not verify, or the fee is charged to the wrong party", 6,
 		func(o *an.Obl) {
-			// the option constructor calls that reach variable name in f
-			optsOf := func(f *an.Func, name string) []string {
-				var out []string
-				add := func(es []ast.Expr) {
-					for _, e := range es {
-						if c, ok := e.(*ast.CallExpr); ok {
-							out = append(out, f.Canon(c))
-						}
-					}
-				}
-				ast.Inspect(f.Body, func(n ast.Node) bool {
-					as, ok := n.(*ast.AssignStmt)
-					if !ok || len(as.Lhs) != 1 || an.Text(as.Lhs[0]) != name || len(as.Rhs) != 1 {
-						return true
-					}
-					switch x := as.Rhs[0].(type) {
-					case *ast.CompositeLit:
-						add(x.Elts)
-					case *ast.CallExpr:
-						if an.Text(x.Fun) == "append" && !x.Ellipsis.IsValid() {
-							add(x.Args[1:])
-						}
-					}
-					return true
-				})
-				sort.Strings(out)
-				return out
-			}
-			lastArgVar := func(s an.Site) string {
-				c := s.Node.(*ast.CallExpr)
-				if !c.Ellipsis.IsValid() {
-					return ""
-				}
-				return an.Text(c.Args[len(c.Args)-1])
-			}
 			start := p.Func(cc + "LocalCloseStart.ProcessEvent")
 			sent := p.Func(cc + "LocalOfferSent.ProcessEvent")
 			rem := p.Func(cc + "RemoteCloseStart.ProcessEvent")
 			helper := p.Func(cc + "createLocalCloseeSignature")
+			prep := p.Func(cc + "prepareClosingSignatures")
+
+			proposalOpts := map[string]int{"ProposalClosingOpts": 0}
+			seqTerm := func(f *an.Func, e ast.Expr) bool {
+				// mempool.MaxRBFSequence (btcd)
+				sel, ok := e.(*ast.SelectorExpr)
+				if !ok {
+					return false
+				}
+				obj := f.Info().Uses[sel.Sel]
+				return obj != nil && obj.Pkg() != nil && obj.Name() == "MaxRBFSequence" && obj.Parent() == obj.Pkg().Scope() &&
+					strings.HasSuffix(obj.Pkg().Path(), "/mempool")
+			}
+			payerIs := func(party string) an.Term { return an.PkgVar("lntypes", party) }
 
 			prop := start.Calls(an.CalleeNamed("CreateCloseProposal"), false)
 			comp := sent.Calls(an.CalleeNamed("CompleteCooperativeClose"), false)
-			if need(o, start, "CreateCloseProposal", prop, 1) && need(o, sent, "CompleteCooperativeClose", comp, 1) {
-				a := optsOf(start, lastArgVar(prop[0]))
-				b := optsOf(sent, lastArgVar(comp[0]))
+			pcs := sent.Calls(an.CalleeIs(cc+"prepareClosingSignatures"), false)
+			if needExactly(o, start, "CreateCloseProposal", prop, 1) && needExactly(o, sent, "CompleteCooperativeClose", comp, 1) {
+				pid, cid := c17LastArgIdent(prop[0]), c17LastArgIdent(comp[0])
+				if pid == nil || cid == nil || !prop[0].Node.(*ast.CallExpr).Ellipsis.IsValid() || !comp[0].Node.(*ast.CallExpr).Ellipsis.IsValid() {
+					o.FailAt(sent.ID+"#option-lists", comp[0].Where(), "the closer's proposal / completion do not take their options from a list variable")
+					return
+				}
+				la := c17RbfOptionList(o, start, pid, prop, proposalOpts)
+				lb := c17RbfOptionList(o, sent, cid, append(append([]an.Site{}, pcs...), comp...), map[string]int{"prepareClosingSignatures": 2})
+				a, b := la.canonOpts(start), lb.canonOpts(sent)
 				o.Site("closer proposal options %v", a)
 				o.Site("closer completion options %v", b)
 				if strings.Join(a, ";") != strings.Join(b, ";") || len(a) == 0 {
 					o.FailAt(sent.ID+"#options-differ", comp[0].Where(), "the closer signs its proposal with %v but completes it with %v", a, b)
 				}
-				if !strings.Contains(strings.Join(a, ";"), "lnwallet.WithCustomPayer(lntypes.Local)") {
-					o.FailAt(start.ID+"#payer", prop[0].Where(), "the closer's proposal does not name the local party as fee payer: %v", a)
-				}
-				if !reMatch(`lnwallet\.WithCustomSequence\([^;]*mempool\.MaxRBFSequence\)`, strings.Join(a, ";")) {
-					o.FailAt(start.ID+"#sequence", prop[0].Where(), "the closer's proposal does not use the RBF sequence: %v", a)
-				}
+				want := map[string]an.Term{"WithCustomSequence": seqTerm, "WithCustomPayer": payerIs("Local")}
+				desc := map[string]string{"WithCustomSequence": "the RBF sequence", "WithCustomPayer": "the local party as fee payer"}
+				c17RbfOptionKinds(o, start, la, prop[0].Where(), want, desc)
+				c17RbfOptionKinds(o, sent, lb, comp[0].Where(), want, desc)
 				// scripts and fee of the two halves: local script, remote script, the offered fee
 				pa, ca := start.ArgCanon(prop[0]), sent.ArgCanon(comp[0])
 				o.Site("closer proposal (fee=%s, local=%s, remote=%s)", pa[0], pa[1], pa[2])
@@ -85,6 +280,40 @@ func rbfCloseOptions(r *an.Run) {
 				}
 				if ca[2] != "$recv.LocalDeliveryScript" || ca[3] != "$recv.RemoteDeliveryScript" || ca[4] != "$recv.ProposedFee" {
 					o.FailAt(sent.ID+"#scripts-fee", comp[0].Where(), "the completion is built for (%s, %s) at fee %s, expected the state's scripts and ProposedFee", ca[2], ca[3], ca[4])
+				}
+				// the variables the proposal is signed for keep their value
+				// (the next state records them by name)
+				var names []string
+				for _, e := range prop[0].Node.(*ast.CallExpr).Args[:3] {
+					if id, ok := ast.Unparen(e).(*ast.Ident); ok {
+						names = append(names, id.Name)
+					}
+				}
+				notReassigned(o, start, names...)
+				c17NoFieldWrites(o, start, pa[1], pa[2])
+				c17NoFieldWrites(o, sent, ca[2], ca[3], ca[4])
+			}
+			// the musig options handed back by prepareClosingSignatures are
+			// nil or those of CombineClosingOpts
+			for _, s := range prep.Returns() {
+				rs, _ := s.Node.(*ast.ReturnStmt)
+				if rs == nil || len(rs.Results) != 4 {
+					o.FailAt(prep.ID+"#exit-shape", s.Where(), "cannot read the options returned at %s", s.String())
+					continue
+				}
+				e := ast.Unparen(rs.Results[2])
+				o.Site("prepareClosingSignatures returns options %s", an.Text(e))
+				if an.IsNilIdent(prep.Info(), e) {
+					continue
+				}
+				id, _ := e.(*ast.Ident)
+				var call *ast.CallExpr
+				idx := -1
+				if id != nil {
+					call, idx = prep.UniqueCallDef(id)
+				}
+				if call == nil || idx != 2 || !strings.HasSuffix(an.CalleeID(prep.Info(), call), ".CombineClosingOpts") {
+					o.FailAt(prep.ID+"#returned-options", s.Where(), "prepareClosingSignatures hands back the options %s, expected nil or the musig options of CombineClosingOpts: they are appended to the completion's list unseen", an.Text(e))
 				}
 			}
 			// the fee recorded in LocalOfferSent is the fee that was signed
@@ -102,35 +331,90 @@ func rbfCloseOptions(r *an.Run) {
 			hs := rem.Calls(an.CalleeIs(cc+"createLocalCloseeSignature"), false)
 			rc := rem.Calls(an.CalleeNamed("CompleteCooperativeClose"), false)
 			hp := helper.Calls(an.CalleeNamed("CreateCloseProposal"), false)
-			if need(o, rem, "createLocalCloseeSignature", hs, 1) && need(o, rem, "CompleteCooperativeClose", rc, 1) && need(o, helper, "CreateCloseProposal", hp, 1) {
-				ha := hs[0].Node.(*ast.CallExpr).Args
-				v1, v2 := an.Text(ha[len(ha)-1]), lastArgVar(rc[0])
-				opts := optsOf(rem, v2)
-				o.Site("closee options %v (signature list %s, completion list %s)", opts, v1, v2)
-				if v1 != v2 || v1 == "" {
-					o.FailAt(rem.ID+"#option-lists", rc[0].Where(), "the closee signs with option list %s but completes with %s", v1, v2)
+			if needExactly(o, rem, "createLocalCloseeSignature", hs, 1) && needExactly(o, rem, "CompleteCooperativeClose", rc, 1) && needExactly(o, helper, "CreateCloseProposal", hp, 1) {
+				v1, v2 := c17LastArgIdent(hs[0]), c17LastArgIdent(rc[0])
+				if v1 == nil || v2 == nil || c17ObjOfIdent(rem, v1) != c17ObjOfIdent(rem, v2) || !rc[0].Node.(*ast.CallExpr).Ellipsis.IsValid() {
+					o.FailAt(rem.ID+"#option-lists", rc[0].Where(), "the closee signs with option list %s but completes with %s", an.Text(hs[0].Node.(*ast.CallExpr).Args[len(hs[0].Node.(*ast.CallExpr).Args)-1]), an.Text(rc[0].Node.(*ast.CallExpr).Args[len(rc[0].Node.(*ast.CallExpr).Args)-1]))
+					return
 				}
-				j := strings.Join(opts, ";")
-				for what, re := range map[string]string{
-					"the remote party as fee payer":       `lnwallet\.WithCustomPayer\(lntypes\.Remote\)`,
-					"the RBF sequence":                    `lnwallet\.WithCustomSequence\([^;]*mempool\.MaxRBFSequence\)`,
-					"the lock time of the peer's message": `lnwallet\.WithCustomLockTime\([^;]*SigMsg\.LockTime\)`,
-				} {
-					if !reMatch(re, j) {
-						o.FailAt(rem.ID+"#option:"+what, rc[0].Where(), "the closee's options %v lack %s", opts, what)
+				lr := c17RbfOptionList(o, rem, v2, append(append([]an.Site{}, hs...), rc...), proposalOpts)
+				opts := lr.canonOpts(rem)
+				o.Site("closee options %v (signature list %s, completion list %s)", opts, v1.Name, v2.Name)
+				// the lock time and the fee are read from the same message
+				feeArg := ast.Unparen(hs[0].Node.(*ast.CallExpr).Args[1])
+				lockTerm := func(f *an.Func, e ast.Expr) bool {
+					// <msg>.SigMsg.LockTime next to the fee <msg>.SigMsg.FeeSatoshis
+					sel, ok := e.(*ast.SelectorExpr)
+					fsel, fok := feeArg.(*ast.SelectorExpr)
+					if !ok || !fok || sel.Sel.Name != "LockTime" || fsel.Sel.Name != "FeeSatoshis" {
+						return false
 					}
+					a, aok := ast.Unparen(sel.X).(*ast.SelectorExpr)
+					b, bok := ast.Unparen(fsel.X).(*ast.SelectorExpr)
+					if !aok || !bok || a.Sel.Name != "SigMsg" || b.Sel.Name != "SigMsg" {
+						return false
+					}
+					ai, aok := ast.Unparen(a.X).(*ast.Ident)
+					bi, bok := ast.Unparen(b.X).(*ast.Ident)
+					return aok && bok && c17ObjOfIdent(f, ai) != nil && c17ObjOfIdent(f, ai) == c17ObjOfIdent(f, bi) &&
+						an.TypeID(f.Info().TypeOf(ai)) == cc+"OfferReceivedEvent"
 				}
+				c17RbfOptionKinds(o, rem, lr, rc[0].Where(),
+					map[string]an.Term{"WithCustomSequence": seqTerm, "WithCustomPayer": payerIs("Remote"), "WithCustomLockTime": lockTerm},
+					map[string]string{"WithCustomSequence": "the RBF sequence", "WithCustomPayer": "the remote party as fee payer", "WithCustomLockTime": "the lock time of the peer's message"})
 				// the helper forwards exactly its parameters
 				a := helper.ArgCanon(hp[0])
 				o.Site("createLocalCloseeSignature -> CreateCloseProposal(%s)", strings.Join(a, ", "))
-				if a[0] != "$p1" || a[1] != "$p2" || a[2] != "$p3" || lastArgVar(hp[0]) != "chanOpts" {
+				hid := c17LastArgIdent(hp[0])
+				hps := helper.Params(false)
+				if a[0] != "$p1" || a[1] != "$p2" || a[2] != "$p3" || hid == nil || len(hps) != 5 || c17ObjOfIdent(helper, hid) != types.Object(hps[4]) || !hp[0].Node.(*ast.CallExpr).Ellipsis.IsValid() {
 					o.FailAt(helper.ID+"#forward", hp[0].Where(), "the helper calls CreateCloseProposal(%s)", strings.Join(a, ", "))
+				} else {
+					lh := c17RbfOptionList(o, helper, hid, hp, nil)
+					if len(lh.writes) > 0 {
+						o.FailAt(helper.ID+"#forward-changed", lh.writes[0].Where(), "the helper changes the option list it was given before signing: %s", lh.writes[0].String())
+					}
+					notReassigned(o, helper, c17ParamNames(helper, 1, 2, 3, 4)...)
 				}
 				// same fee and scripts on both halves
 				sa, ca := rem.ArgCanon(hs[0]), rem.ArgCanon(rc[0])
 				if sa[1] != ca[4] || sa[2] != ca[2] || sa[3] != ca[3] {
 					o.FailAt(rem.ID+"#halves", rc[0].Where(), "the closee signs (fee=%s, %s, %s) but completes (fee=%s, %s, %s)", sa[1], sa[2], sa[3], ca[4], ca[2], ca[3])
 				}
+				if strings.Contains(sa[1]+sa[2]+sa[3], "$v:") && an.Text(hs[0].Node.(*ast.CallExpr).Args[1]) != an.Text(rc[0].Node.(*ast.CallExpr).Args[4]) {
+					o.FailAt(rem.ID+"#halves", rc[0].Where(), "the closee signs for fee %s but completes for %s", an.Text(hs[0].Node.(*ast.CallExpr).Args[1]), an.Text(rc[0].Node.(*ast.CallExpr).Args[4]))
+				}
+				c17NoFieldWrites(o, rem, sa[1], sa[2], sa[3])
 			}
 		})
+}
+
+// c17NoFieldWrites: f does not assign to the places (given in canonical form)
+// that both halves of a flow read their fee and scripts from.
+func c17NoFieldWrites(o *an.Obl, f *an.Func, canons ...string) {
+	want := map[string]bool{}
+	for _, c := range canons {
+		want[c] = true
+	}
+	ast.Inspect(f.Body, func(n ast.Node) bool {
+		var lhs []ast.Expr
+		switch x := n.(type) {
+		case *ast.AssignStmt:
+			if x.Tok == token.DEFINE {
+				return true
+			}
+			lhs = x.Lhs
+		case *ast.IncDecStmt:
+			lhs = []ast.Expr{x.X}
+		}
+		for _, l := range lhs {
+			if _, isSel := ast.Unparen(l).(*ast.SelectorExpr); !isSel {
+				continue
+			}
+			if c := f.Canon(l); want[c] {
+				o.FailAt(f.ID+"#half-input-written", f.Where(n.Pos()), "%s overwrites %s, which the signing and the completing half read", f.ID, c)
+			}
+		}
+		return true
+	})
 }
